@@ -7,6 +7,7 @@ import PasskeyVerif.Driver.AuthData
 import PasskeyVerif.Driver.Ctap
 import PasskeyVerif.Driver.Auth
 import PasskeyVerif.Driver.Client
+import PasskeyVerif.Driver.Secrets
 open PasskeyVerif
 
 structure DriverState where
@@ -30,6 +31,8 @@ def stepLine (st : DriverState) (line : String) : DriverState × String :=
     else if tok.startsWith "cl." then
       let (a, out) := Driver.Client.step st.au op impl
       ({ st with au := a }, out)
+    else if tok = "sec.reset" || tok = "sec.end" then (st, "-\tna")
+    else if tok.startsWith "sec." then (st, Driver.Secrets.step op impl)
     else if tok.startsWith "psl." then (st, Driver.Psl.step op impl)
     else if tok.startsWith "rp." then (st, Driver.RpId.step op impl)
     else if tok.startsWith "ad." then (st, Driver.AuthData.step op impl)
